@@ -182,8 +182,11 @@ class Ctx:
             self.cargo_log = err
         return rc == 0
 
-    def harness(self, binname, args=(), out_path=None, seed=None, timeout=3000, env_extra=None):
-        """Run a harness binary; stdout goes to out_path; returns (rc, stderr)."""
+    def harness(self, binname, args=(), out_path=None, seed=None, timeout=None, env_extra=None):
+        """Run a harness binary; stdout goes to out_path; returns (rc, stderr).  A harness that does not finish within
+        the time limit (quick: 10 min, thorough: 50 min) counts as crashed (rc 124), which the plugins report."""
+        if timeout is None:
+            timeout = 600 if self.tier == "quick" else 3000
         binp = os.path.join(HARNESS, "target", "debug", binname)
         env = dict(ENV, VERIF_SEED=str(self.seed if seed is None else seed), VERIF_TIER=self.tier)
         if env_extra:
